@@ -554,6 +554,23 @@ def c30_round(exe, seed, name, rng_seed):
                 pending.append(rid)
             if rng.random() < 0.6:
                 time.sleep(rng.choice([0, 0.001, 0.01, 0.05, 0.12, 0.25]))
+        # close a session that still has a backlog: a running eval, a queued eval and a queued simple request, then
+        # `close`, all in one TCP write. Every one of them must still get exactly one final `done`.
+        if rng.random() < 0.6:
+            xs = clone(cl, "x")
+            expect["c-x"] = {"kind": "clone"}
+            if xs is not None:
+                p1 = gen_prog(rng, "xb1", heavy=True)
+                p2 = gen_prog(rng, "xb2", heavy=False)
+                cl.send({"op": "eval", "id": "xb1", "session": xs, "code": p1.code()},
+                        {"op": "eval", "id": "xb2", "session": xs, "code": p2.code()},
+                        {"op": "completions", "id": "xb3", "session": xs, "prefix": "only_in"},
+                        {"op": "close", "id": "xb4", "session": xs})
+                expect["xb1"] = {"kind": "eval", "prog": p1, "may_interrupt": True, "queued": True}
+                expect["xb2"] = {"kind": "eval", "prog": p2, "may_interrupt": True, "queued": True}
+                expect["xb3"] = {"kind": "simple", "queued": True}
+                expect["xb4"] = {"kind": "simple"}
+                pending += ["xb1", "xb2", "xb3", "xb4"]
         # isolation probes: each session sees its own definition and nobody else's
         iso = []
         for i, s in enumerate(sess):
